@@ -76,7 +76,7 @@ def build(template_path, out_path, canary=False, repo=None, mutate=None):
                         if d == "end":
                             break
                         op, _, arg = d.partition(" ")
-                        arg = arg.strip()
+                        arg = arg.strip().replace("\\n", "\n")
                         if op == "ret":
                             cur = {"op": "ret", "name": arg, "text": ""}
                         elif op == "sig":
